@@ -640,3 +640,93 @@ Proof.
       rewrite (index_pct25_none h (Forall_hostc_no_pct h Fhh)), (unescape_host_fix h Fhh), Hip. reflexivity. }
     rewrite P. apply str_eqb_refl.
 Qed.
+
+(* ---------- the shortcuts of go_valid_registry are sound: it equals the step-by-step version ---------- *)
+
+Lemma parse_host_len ip6 x h : parse_host ip6 x = Some h -> (length h <= length x)%nat.
+Proof.
+  unfold parse_host. destruct (last_index_of 91 x) as [[|k]|] eqn:Eo; [| discriminate |].
+  - destruct (last_index_of 93 x) as [cb|] eqn:Ec; [|discriminate].
+    destruct (negb (valid_optional_port (skipn (S cb) x))); [discriminate|].
+    destruct (unescape_host (skipn (S cb) x)) as [uport|] eqn:Ep; [|discriminate].
+    pose proof (unescape_host_len _ _ Ep) as Lp.
+    match goal with |- match ?u with _ => _ end = _ -> _ => destruct u as [uh|] eqn:Eu end; [|discriminate].
+    destruct (ip6 uh); [|discriminate]. intro H. injection H as <-.
+    assert (Lh : (length uh <= length (skipn 1 (firstn cb x)))%nat).
+    { destruct (index_pct25 (skipn 1 (firstn cb x))) as [z|].
+      - destruct (unescape_host (firstn z (skipn 1 (firstn cb x)))) as [a|] eqn:Ea; [|discriminate].
+        destruct (unescape_zone (skipn z (skipn 1 (firstn cb x)))) as [c|] eqn:Ezn; [|discriminate].
+        injection Eu as <-. pose proof (unescape_host_len _ _ Ea). pose proof (unescape_zone_len _ _ Ezn).
+        assert (LL : length (skipn 1 (firstn cb x)) = (length (firstn z (skipn 1 (firstn cb x))) + length (skipn z (skipn 1 (firstn cb x))))%nat)
+          by (rewrite <- app_length, firstn_skipn; reflexivity).
+        rewrite app_length. lia.
+      - now apply unescape_host_len. }
+    pose proof (last_index_of_split _ _ _ Ec) as Sc.
+    assert (Lx : length x = (length (firstn cb x) + S (length (skipn (S cb) x)))%nat)
+      by (rewrite Sc at 1; rewrite app_length; reflexivity).
+    pose proof (last_index_of_split _ _ _ Eo) as So. simpl in So.
+    assert (L1 : (S (length (skipn 1 (firstn cb x))) <= length (firstn cb x))%nat \/ firstn cb x = []).
+    { destruct (firstn cb x); [now right | left; simpl; lia]. }
+    rewrite ?app_length. simpl. rewrite ?app_length. simpl.
+    destruct L1 as [L1|L1]; [lia|].
+    (* '[' is the first byte, so the part before ']' is not empty *)
+    exfalso. destruct x as [|x0 tl]; [discriminate|]. destruct cb; [|discriminate].
+    simpl in Sc. injection Sc as E0. simpl in So. injection So as E1. congruence.
+  - intro H. apply unescape_host_len.
+    destruct (last_index_of 58 x); [destruct (valid_optional_port _); [exact H | discriminate] | exact H].
+Qed.
+
+Lemma cut_first_len c s : (length (fst (cut_first c s)) <= length s)%nat /\
+                          (contains c s = true -> (length (fst (cut_first c s)) < length s)%nat).
+Proof.
+  unfold cut_first. destruct (index_of c s) as [i|] eqn:E; simpl.
+  - apply index_of_some in E as (_ & Hn & _).
+    assert (i < length s)%nat by (apply nth_error_Some; congruence).
+    rewrite firstn_length_le by lia. split; [lia | intros _; lia].
+  - split; [lia|]. intro H. apply index_of_none in E. congruence.
+Qed.
+
+Lemma cut_first_none c s : contains c s = false -> cut_first c s = (s, None).
+Proof. intro H. unfold cut_first. apply index_of_none in H. now rewrite H. Qed.
+
+Theorem go_valid_registry_faithful_eq ip6 other_ok reg :
+  (forall a, contains 64 a = false -> other_ok a None = true) ->
+  go_valid_registry_faithful ip6 other_ok reg = go_valid_registry ip6 reg.
+Proof.
+  intro Hok. unfold go_valid_registry_faithful, request_uri_host, go_valid_registry.
+  destruct (existsb is_ctl reg); [reflexivity|]. cbn [negb andb].
+  destruct (contains 63 reg) eqn:Cq; destruct (contains 47 reg) eqn:Cs; destruct (contains 64 reg) eqn:Ca; cbn [negb andb].
+  8:{ (* none of the three: the authority is the registry itself *)
+      rewrite (cut_first_none 63 reg Cq). cbn [fst]. rewrite (cut_first_none 47 reg Cs).
+      apply last_index_of_none in Ca. rewrite Ca. apply last_index_of_none in Ca.
+      destruct (parse_host ip6 reg) as [h|]; [|reflexivity]. now rewrite (Hok reg Ca). }
+  (* otherwise Host comes out of a strictly shorter string *)
+  all: destruct (cut_first 47 (fst (cut_first 63 reg))) as [auth path] eqn:E47;
+    match goal with |- context [parse_host ?i6 ?hp] =>
+      destruct (parse_host i6 hp) as [h|] eqn:P; [|reflexivity];
+      destruct (other_ok auth path); [|reflexivity];
+      destruct h as [|x0 h0]; [reflexivity|];
+      destruct (str_eqb (x0 :: h0) reg) eqn:Eq; [|reflexivity];
+      exfalso; apply str_eqb_spec in Eq; apply parse_host_len in P; rewrite Eq in P;
+      assert (Lh : (length hp <= length auth)%nat)
+        by (destruct (last_index_of 64 auth); [rewrite skipn_length; lia | lia]);
+      assert (La : auth = fst (cut_first 47 (fst (cut_first 63 reg)))) by (rewrite E47; reflexivity);
+      pose proof (cut_first_len 47 (fst (cut_first 63 reg))) as [L47 S47];
+      pose proof (cut_first_len 63 reg) as [L63 S63];
+      rewrite <- La in L47, S47
+    end.
+  (* a '?' in the registry: strictly shorter already *)
+  1-4: specialize (S63 Cq); lia.
+  (* no '?': rest = reg *)
+  all: rewrite (cut_first_none 63 reg Cq) in *; cbn [fst] in *.
+  (* a '/' *)
+  1-2: specialize (S47 Cs); lia.
+  (* only an '@': authority = reg, the host part starts after the last '@' *)
+  rewrite (cut_first_none 47 reg Cs) in E47. injection E47 as <- <-.
+  destruct (last_index_of 64 reg) as [i|] eqn:E64.
+  - pose proof (last_index_of_split _ _ _ E64) as Sp.
+    assert (length reg = (length (firstn i reg) + S (length (skipn (S i) reg)))%nat)
+      by (rewrite Sp at 1; rewrite app_length; reflexivity).
+    lia.
+  - apply last_index_of_none in E64. congruence.
+Qed.
